@@ -45,6 +45,7 @@ type netCfg struct {
 	preseed      bool
 	rejects      bool
 	allPull      int // 0 mixed, 1 all pull, 2 all push
+	sendFail     bool // from some graphsync delivery on, every stream write fails (streams still open) until the settle phase
 }
 
 type xfer struct {
@@ -96,6 +97,7 @@ type netRun struct {
 	ops       []*appOp
 	extraChannelsAllowed int
 	crashed   bool
+	sendFailAt int
 }
 
 var ctxBG = context.Background()
@@ -112,6 +114,9 @@ type appOp struct {
 	// state of the channel on that node right before the call (when known)
 	Pre   Snap
 	PreOK bool
+	// state right after the call returned (Resume only)
+	Post   Snap
+	PostOK bool
 }
 
 // api issues one manager API call as a tracked, timed call and logs it for the oracles.
@@ -120,6 +125,13 @@ func (nr *netRun) api(n *Node, kind string, x *xfer, f func() error) *appOp {
 	nr.ops = append(nr.ops, op)
 	c := &Call{Name: kind, Node: n.Name}
 	op.Call = c
+	if !n.Up {
+		// the process is down: the application cannot call into it
+		op.Life = -1
+		c.Err = errProcessDead
+		c.Returned = true
+		return op
+	}
 	c.T0, c.S0 = time.Now(), nr.r.S.Steps
 	if x.opened {
 		op.HadActiveGS = n.GS.ActiveFor(x.chid.ID)
@@ -127,6 +139,11 @@ func (nr *netRun) api(n *Node, kind string, x *xfer, f func() error) *appOp {
 	c.Err = f()
 	c.T1, c.S1 = time.Now(), nr.r.S.Steps
 	c.Returned = true
+	if kind == "Resume" && c.Err == nil && x.opened && n.life == op.Life {
+		if ps, ok := n.State(x.chid); ok {
+			op.Post, op.PostOK = ps, true
+		}
+	}
 	if op.HadActiveGS && !(x.opened && n.GS.ActiveFor(x.chid.ID)) {
 		op.HadActiveGS = false // the request ended while the call was running: transport effects are not required
 	}
@@ -544,6 +561,29 @@ func (nr *netRun) scheduleOps(x *xfer) {
 
 // ---------------------------------------------------------------- faults
 
+// installSendFail: one graphsync message is lost (transport error on both sides) and from then on every libp2p
+// stream write fails although streams can still be opened: reconnecting works, sending the restart does not.
+func (nr *netRun) installSendFail() {
+	r := nr.r
+	total := 0
+	for _, x := range nr.xs {
+		total += len(x.walk)
+	}
+	at := 2 + r.Intn(total+2)
+	fired := false
+	nr.w.GS.OnDeliver = func(from, to peer.ID, m *gsMsg) bool {
+		if fired || nr.w.GS.Delivered < at {
+			return false
+		}
+		fired = true
+		nr.sendFailAt = nr.w.S.Steps
+		nr.w.Net.WriteFail = 1 << 30
+		r.Fault("persistent-write-failure")
+		nr.w.Logf("FAULT graphsync message lost; all stream writes fail from now on")
+		return true
+	}
+}
+
 func (nr *netRun) installCuts() {
 	r := nr.r
 	if nr.cfg.cuts == 0 {
@@ -684,6 +724,9 @@ func netTransfer(mk func(r *RunCtx) netCfg) func(r *RunCtx) {
 			nr.xs = append(nr.xs, x)
 		}
 		nr.installCuts()
+		if cfg.sendFail {
+			nr.installSendFail()
+		}
 		if cfg.crash {
 			nr.installCrash()
 		}
@@ -696,6 +739,7 @@ func netTransfer(mk func(r *RunCtx) netCfg) func(r *RunCtx) {
 		// run phase, then settle: faults stop, partitions heal, everything drains
 		simrt.Sleep(5 * time.Minute)
 		nr.w.GS.OnDeliver = nil
+		nr.w.Net.WriteFail = 0
 		nr.w.Net.Cut(nr.A.ID, nr.B.ID, false)
 		simrt.Sleep(30 * time.Minute)
 		nr.evaluate()
@@ -733,6 +777,7 @@ func (nr *netRun) evaluate() {
 			}
 		}
 	}
+	nr.checkC14()
 	nr.wireMonitor()
 	sa := map[string]int{}
 	for _, x := range nr.xs {
@@ -934,6 +979,11 @@ func init() {
 	Register("C10", Stratum{Name: "net-process-crash-and-restart", Weight: 3, Fn: netTransfer(crashCfg)})
 	Register("C06", Stratum{Name: "net-process-crash-and-restart", Weight: 2, Fn: netTransfer(crashCfg)})
 	Register("C09", Stratum{Name: "net-process-crash-and-restart", Weight: 1, Fn: netTransfer(crashCfg)})
+	Register("C14", Stratum{Name: "net-monitor-persistent-send-failure", Weight: 2, Fn: netTransfer(func(r *RunCtx) netCfg {
+		c := netCfg{nCh: 1, sendFail: true, monitorA: true, allPull: 2, stores: r.Intn(2) == 0}
+		c.monitorB = r.Intn(3) == 0
+		return c
+	})})
 	Register("C11", Stratum{Name: "net-pauses", Weight: 4, Fn: netTransfer(pausesCfg)}, Stratum{Name: "net-mixed", Weight: 1, Fn: netTransfer(mixCfg)})
 	Register("C09", Stratum{Name: "net-closes", Weight: 4, Fn: netTransfer(closesCfg)}, Stratum{Name: "net-mixed", Weight: 2, Fn: netTransfer(mixCfg)})
 	Register("C10", Stratum{Name: "net-restarts", Weight: 4, Fn: netTransfer(restartsCfg)}, Stratum{Name: "net-mixed", Weight: 1, Fn: netTransfer(mixCfg)})
